@@ -12,6 +12,9 @@ import time
 import z3
 
 ENG = None  # the active engine of this process (set by Engine.activate)
+# opt-in (checksum-style harnesses): encode ~x as -x-1 (same value) so that z3's polynomial normal
+# form cancels  sum + (~sum + 1)  without bit-blasting; bad for bit-twiddling code, hence off by default
+INVERT_AS_NEG = False
 
 
 class Abort(BaseException):
@@ -251,6 +254,8 @@ class SymInt:
         return _mk(z3.If(s.e < 0, -s.e, s.e), 0, max(-s.lo, s.hi))
 
     def __invert__(s):
+        if INVERT_AS_NEG:
+            return _mk(-s.e - 1, -s.hi - 1, -s.lo - 1)
         return _mk(~s.e, -s.hi - 1, -s.lo - 1)
 
     # -- bit operations ---------------------------------------------------
@@ -378,12 +383,13 @@ class SymInt:
                 if ENG.decide(eb == 0):
                     raise ZeroDivisionError("integer division or modulo by zero")
         # general floor division built from truncating division
-        if la >= 0 and lb > 0:
+        if la >= 0 and lb >= 0:
+            # both operands non-negative (a zero divisor was forked away above): unsigned division is exact
             q = z3.UDiv(ea, eb)
             r = z3.URem(ea, eb)
             if want == "div":
-                return _mk(q, la // hb, ha // lb)
-            return _mk(r, 0, min(ha, hb - 1))
+                return _mk(q, la // max(hb, 1), ha // max(lb, 1))
+            return _mk(r, 0, min(ha, max(hb, 1) - 1))
         q = ea / eb  # bvsdiv (truncating)
         r = z3.SRem(ea, eb)
         adj = z3.And(r != 0, (r < 0) != (eb < 0))
